@@ -287,7 +287,7 @@ func NewSigGrid() *SigGrid {
 
 func (d *SigGrid) Name() string { return "placement-signatures" }
 func (d *SigGrid) Rule() string {
-	return "all signature matrices over the symbol menu with <= REP+1 slots for the enumerated vector (the other vector honest), REP 1..4 x 1..2, plus missing-vector rows; non-trivial = at least one slot holds a valid member signature; distinct by matrix"
+	return "all signature matrices over the symbol menu (members, the same member twice byte-identically and malleated, a non-member, a member of the other vector; thorough also another message, junk) with <= REP+1 slots for the enumerated vector (the other vector honest), REP 1..4 x 1..2, plus missing-vector rows; non-trivial = at least one slot holds a valid member signature; distinct by matrix"
 }
 
 // the contract under every REP pair lives in its own container id, prepared in Build
@@ -335,10 +335,10 @@ func (d *SigGrid) metaBytes(w *World, cid []byte, size int64) []byte {
 }
 
 func (d *SigGrid) Cases(tier string) []GridCase {
-	syms := []string{"m0", "m1", "m2", "m0same", "m0again", "out"}
+	syms := []string{"m0", "m1", "m2", "m0same", "m0again", "out", "x0"}
 	maxR0 := 3
 	if tier == "thorough" {
-		syms = []string{"m0", "m1", "m2", "m3", "m0same", "m0again", "out", "m0other", "junk"}
+		syms = []string{"m0", "m1", "m2", "m3", "m0same", "m0again", "out", "m0other", "junk", "x0", "x1"}
 		maxR0 = 4
 	}
 	var out []GridCase
@@ -396,6 +396,9 @@ func (d *SigGrid) sig(v int, sym string, msg, other []byte) []byte {
 		return d.out.Sign(msg)
 	case sym == "junk":
 		return make([]byte, 64)
+	case sym == "x0" || sym == "x1":
+		// a valid signature of the message by a member of the OTHER placement vector
+		return d.mem[1-v][int(sym[1]-'0')].Sign(msg)
 	case sym == "m0same":
 		return mem[0].Sign(msg) // RFC 6979: byte-identical to "m0"
 	case sym == "m0again":
